@@ -662,8 +662,15 @@ func TestC16(t *testing.T) {
 	deadline := ev.Pick(3*time.Minute, 10*time.Minute)
 	var inconclusive atomic.Bool
 
+	type c16Sample struct {
+		shard int
+		v     map[string]any
+	}
+	var sampleMu sync.Mutex
+	var samples []c16Sample
+
 	// process one shard (in its own goroutine so that the watchdog can give up on it)
-	runShard := func(sh c16Shard, small bool) {
+	runShard := func(si int, sh c16Shard, small bool) {
 		var cur atomic.Pointer[[]byte]
 		done := make(chan struct{})
 		go func() {
@@ -686,6 +693,11 @@ func TestC16(t *testing.T) {
 				}
 				out, reads, fail := c16Call(sh.p, in, step)
 				evals++
+				if evals == 500 && !small {
+					sampleMu.Lock()
+					samples = append(samples, c16Sample{si, map[string]any{"parser": sh.p.name, "family": sh.family, "input": fmt.Sprintf("%q", in), "behaviour": c16Class(out)}})
+					sampleMu.Unlock()
+				}
 				trans += out.values + 1
 				_ = reads
 				if fail != nil {
@@ -737,7 +749,7 @@ func TestC16(t *testing.T) {
 	}
 	R.Set("shards", len(shards))
 	tPhase := time.Now()
-	ev.Parallel(len(shards), 16, func(i int) { runShard(shards[i], false) })
+	ev.Parallel(len(shards), 16, func(i int) { runShard(i, shards[i], false) })
 	R.Set("wall_s_parallel_pass", time.Since(tPhase).Seconds())
 	tPhase = time.Now()
 	// stream parsers once more with 1-byte reads (seeds + single edits)
@@ -747,7 +759,7 @@ func TestC16(t *testing.T) {
 			small = append(small, sh)
 		}
 	}
-	ev.Parallel(len(small), 16, func(i int) { runShard(small[i], true) })
+	ev.Parallel(len(small), 16, func(i int) { runShard(i, small[i], true) })
 	R.Set("wall_s_1_byte_read_pass", time.Since(tPhase).Seconds())
 	tPhase = time.Now()
 
@@ -824,18 +836,16 @@ func TestC16(t *testing.T) {
 	R.Set("inputs_skipped_for_confinement", skipped)
 	{
 		per := map[string]int{}
-		var names []string
 		for k := range classes {
 			per[k[:strings.Index(k, ": ")]]++
-			names = append(names, k)
 		}
 		for k, v := range per {
 			R.Part("behaviour_classes", k, v)
 		}
-		sort.Strings(names)
-		for i, k := range names {
-			if i%(len(names)/8+1) == 0 {
-				R.Sample(map[string]any{"behaviour_class": k})
+		sort.Slice(samples, func(i, j int) bool { return samples[i].shard < samples[j].shard })
+		for i, sm := range samples { // deterministic choice: evenly spaced over the shard list
+			if i%(len(samples)/8+1) == 0 {
+				R.Sample(sm.v)
 			}
 		}
 	}
